@@ -29,7 +29,7 @@
       translated (1) nor modelled (2) is only detected when a generated case
       triggers it: the property is claimed PARTIAL in that respect. *)
 From Coq Require Import List NArith String Bool.
-From AsconV Require Import Model.BoundsDefs Model.C12Config Model.Idx Gen.Bounds Proofs.BoundsP Proofs.IdxP.
+From AsconV Require Import Model.BoundsDefs Model.C12Config Model.Idx Gen.Bounds Proofs.BoundsP Proofs.IdxP Obl.BoundsReq Proofs.BoundsReqP.
 Import ListNotations.
 Local Open Scope N_scope.
 
@@ -54,6 +54,28 @@ Theorem C12_kernel_table_covers :
   forallb (has_config bounds_entries) expected_configs = true /\ (1000 <=? N.of_nat (List.length bounds_entries)) = true.
 Proof. exact (conj bounds_table_covers bounds_table_size). Qed.
 Print Assumptions C12_kernel_table_covers.
+
+(* What the table must contain is written by hand (Obl/BoundsReq.bounds_required: 45 configurations, every function of
+   the masked word / state / key toolkit and the masked permutations, every value 0..8 of size / offset, first_round
+   0..13, both aliasing shapes, null objects: 1489 requirements), and whether a call is within contract is decided by
+   the hand-written predicate Model/BoundsDefs.in_contract (load_partial 1..7, store_partial / replace 0..7, pad 0..7,
+   first_round 0..12, everything else always) - [entry_ok] above uses it, not the generator's flag.
+   For every requirement: in_contract agrees with the hand-written flag, and the regenerated table has the run of
+   exactly this configuration, function and argument record, flagged the same way by the generator, and NOT STUCK when
+   within contract (or, while fix_x3_zero = false, the one pinned entry).  Dropping a function, a configuration or an
+   argument value from the generator, or marking an in-contract call "out of contract", breaks this theorem. *)
+Theorem C12_kernel_required : forall cfg fn args valid, In (cfg, fn, args, valid) bounds_required ->
+  in_contract fn args = valid /\
+  exists e, In e bounds_entries /\ be_config e = cfg /\ be_function e = fn /\ be_args e = args /\ be_valid e = valid /\
+            (valid = true -> verdict_ok (be_verdict e) = true \/ tolerated e = true).
+Proof. exact bounds_required_covered. Qed.
+Print Assumptions C12_kernel_required.
+
+(* the generator's flags are in_contract on every entry, and the table has nothing outside the hand-written list *)
+Theorem C12_kernel_flags_and_extent :
+  forallb valid_flag_ok bounds_entries = true /\ forallb (bentry_listed bounds_required) bounds_entries = true.
+Proof. exact (conj bounds_flags_agree bounds_all_listed). Qed.
+Print Assumptions C12_kernel_flags_and_extent.
 
 (* ================================================================== 2. length arithmetic *)
 
